@@ -71,10 +71,12 @@ def run(F, chk):
         ra.ok("SessionManager::incr callers", "", "only create_sessions", nontrivial=False)
     else:
         ra.violation("SessionManager::incr callers", "", "incr is called from %s" % sorted(callers))
-    writers = set()
+    wpaths = {}
     for b in F.grep("f|%s|SessionManager|nb_connections" % SM):
         if (SM, "nb_connections") in cover.body_field_writes(b, SM):
-            writers.add(b.path.split("::")[-1])
+            wpaths[b.root if "{closure" in b.path else b.path] = {"nb_connections"}
+    wpaths, _ = lib.fold_private_writers(F, wpaths, lambda fn: fn.split("::")[-1] in ("incr", "decr"))
+    writers = {w.split("::")[-1] for w in wpaths}
     if writers <= {"incr", "decr"} and writers:
         ra.ok("SessionManager.nb_connections writers", "", "%s" % sorted(writers), nontrivial=False)
     else:
